@@ -5,7 +5,7 @@ import runlib as R
 ID = 'C12'
 COQ_TARGETS = ['Props/Properties_C12.vo']
 PROPS_FILES = ['Props/Properties_C12.v']
-THEOREMS = ['C12_combine', 'C12_documented_is_function', 'C12_inherit', 'C12_global_keys', 'C12_syntax', 'C12_plain_files', 'C12_refuted', 'C12_spf_temp_class_witness', 'C12_checker_sound_partial', 'C12_unfixed_refuted']
+THEOREMS = ['C12_combine', 'C12_documented_is_function', 'C12_inherit', 'C12_global_keys', 'C12_syntax', 'C12_plain_files', 'C12_spacebug_sticky', 'C12_refuted', 'C12_spf_temp_class_witness', 'C12_checker_sound_partial', 'C12_unfixed_refuted']
 ENGINES = [dict(name='filters', c_sources=['filters_h.c', 'filters_real.c', 'filters_real2.c'], extract='Extract/Extract_filters.v',
                 driver='filters_driver.ml', accepts=lambda c: c.startswith('cc '))]
 RULE = ('cases = (outcome of each of the 16 filters named in rcpt_cbs[], filterconf bytes at user / domain / global level incl. '
@@ -14,10 +14,11 @@ RULE = ('cases = (outcome of each of the 16 filters named in rcpt_cbs[], filterc
         'results / random; files built from lines about fail_hard_on_temp, nonexist_on_block and the probe key in the forms bare, '
         '=1, =0, =-1, =-5, =<big>, =LONG_MAX(+1), =LONG_MIN(-1), empty value, junk value, +3, CR before the value, longer and shorter '
         'key, duplicates with the first line 0, comments, escaped #, trailing blanks, inner blanks (load error), NUL bytes, no final '
-        'newline; non-trivial = the C rejected the recipient or a probe returned a non-zero value; distinct by case text')
+        'newline; stage 2 cases with the real cb_boolean/smtpbugs/spf/usersize and sessions (SPF status, TLS, AUTH, ESMTP, MAIL FROM shape, SIZE, '
+        'blanks in the current RCPT TO line, space-bug flag already recorded by MAIL FROM or by an earlier real RCPT TO); non-trivial = the C rejected the recipient or a probe returned a non-zero value; distinct by case text')
 TRUSTED_BASE = [
     'Coq 8.16.1 kernel (coqc; coqchk in thorough); vm_compute only on closed terms built from generated constants (reply templates, enum values) and in the examples; no native_compute',
-    'axioms: none (Print Assumptions: Closed under the global context for all ten theorems)',
+    'axioms: none (Print Assumptions: Closed under the global context for all theorems)',
     'translator tools/translators/filters.py: regexes over qsmtpd/commands.c (smtp_rcpt), qsmtpd/filters/rcpt_filters.c, include/qsmtpd/userfilters.h, userconf.h, '
     'backends/user_vpopm/getfile.c produce Gen/GenFilters.v: order of rcpt_cbs[], enum values, flags, setting names, reply templates, loop condition, '
     'and the boolean FREE_BEFORE_SETTINGS (position of userconf_free(&ds) relative to the getsetting(&ds, ...) reads)',
@@ -176,7 +177,7 @@ def _stage2(rng):
         if v[i] != REAL:
             v[i] = rng.choice([TEMP, UNSPEC, NOUSER, MSG, WHITE, ERR])
     spf = rng.choice([0, 1, 2, 3, 4, 5, 7, 7, 7, 8, 15, 6, 9])
-    flags = rng.randrange(32)
+    flags = rng.randrange(128)          # bits 5/6: the space-bug flag was recorded before this command
     spaces = rng.choice([0, 0, 1, 2, 8])
     size = rng.choice([0, 1, 299, 300, 301, 302, 65535, rng.randrange(65536)])
     sess = bytes([spf, flags, spaces, size >> 8, size & 255])
@@ -185,6 +186,31 @@ def _stage2(rng):
     g = rng.choice([b'\x01', b'\x02' + _s2file(rng), b'\x02' + _s2file(rng)])
     key = rng.choice([k for k, _ in S2KEYS])
     return _case(bytes(v), u, d, g, key, sess)
+
+
+def _spacebug(rng):
+    """aimed at the sticky space-bug flag: real cb_smtpbugs, a rejecting smtp_space_bug at one of the three levels, the flag
+    recorded by an earlier command (bit 5: as MAIL FROM leaves it; bit 6: an earlier real RCPT TO with a blank) and / or by
+    the blanks of the current line; TLS / AUTH / ESMTP on both sides of what the value permits"""
+    v = [PASS] * NF
+    v[REAL_IDS['smtpbugs']] = REAL
+    if rng.random() < 0.3:
+        v[REAL_IDS['usersize']] = REAL
+    if rng.random() < 0.25:
+        i = rng.randrange(NF)
+        if v[i] != REAL:
+            v[i] = rng.choice([TEMP, UNSPEC, WHITE])
+    val = rng.choice([b'=255', b'=255', b'=1', b'=2', b'=3', b'', b'=4', b'=0', b'=-1'])
+    line = b'smtp_space_bug' + val + b'\n'
+    lvl = rng.randrange(3)
+    u = b'\x02' + line if lvl == 0 else rng.choice([b'\x00', b'\x01', b'\x02smtp_space_bug=0\n', b'\x02whitelistauth\n'])
+    d = b'\x02' + line if lvl == 1 else rng.choice([b'\x01', b'\x02helovalid=18\n'])
+    g = b'\x02' + line if lvl == 2 else rng.choice([b'\x01', b'\x02smtp_space_bug=255\n', b'\x02usersize=5\n'])
+    pre = rng.choice([0, 0x20, 0x20, 0x40, 0x40, 0x60])
+    spaces = rng.choice([0, 0, 0, 1, 2])
+    flags = pre | rng.choice([0, 1, 2, 4, 5, 6, 7, 3])
+    size = rng.choice([0, 4, 5, 6])
+    return _case(bytes(v), u, d, g, b'smtp_space_bug', bytes([0, flags, spaces, 0, size]))
 
 
 def gen_cases(engine, rng, tier):
@@ -201,6 +227,8 @@ def gen_cases(engine, rng, tier):
         cases.append(_case(_outcomes(rng), u, d, g, key))
     for i in range(n // 2):
         cases.append(_stage2(rng))
+    for i in range(n // 5):
+        cases.append(_spacebug(rng))
     return cases
 
 
